@@ -145,7 +145,8 @@ class _RabbitConsumer(ConsumerT):
                     "while finishing consumer.",
                     extra={"routing_key": key},
                 )
-        await asyncio.gather(*rejects)
+        # the messages have already left the local queue: return them even if finish() gets cancelled
+        await asyncio.shield(asyncio.gather(*rejects))
 
     async def on_new_message(self, message: aiormq.abc.DeliveredMessage) -> None:
         # get or set message id
